@@ -155,6 +155,28 @@ func C04(run *hx.Run) {
 				case has && !hx.RowEqualDoc(want, hx.Row(row)):
 					run.Violation(key+"/values", fmt.Sprintf("SelectRowid(%s, %d) = %s, SQLite %s", t.Name, id, hx.RowString(row), hx.RowString(want)), detail)
 				}
+				// the existence question alone: no column names. Present = an (empty) row, absent = nil
+				if !p && err == nil && pi%7 == 0 {
+					var row0 sqlittle.Row
+					var err0 error
+					p0, pm0 := safely(func() { row0, err0 = db.SelectRowid(t.Name, id) })
+					calls := 0
+					var errp error
+					pp, pmp := safely(func() { errp = db.PKSelect(t.Name, sqlittle.Key{id}, func(sqlittle.Row) { calls++ }) })
+					run.Eval(1)
+					switch {
+					case p0 || (pp && t.RowidAlias != nil):
+						run.Violation("C04/no-columns/panic", fmt.Sprintf("SelectRowid/PKSelect(%s, %d) without column names: panic: %s%s", t.Name, id, firstLines(pm0, 2), firstLines(pmp, 2)), detail)
+					case err0 != nil:
+						run.Violation("C04/no-columns/error", fmt.Sprintf("SelectRowid(%s, %d) without column names: %v", t.Name, id, err0), detail)
+					case has != (row0 != nil):
+						run.Violation("C04/no-columns/presence", fmt.Sprintf("SelectRowid(%s, %d) without column names reports the rowid as %s; with columns as %s", t.Name, id, map[bool]string{true: "present", false: "absent"}[row0 != nil], map[bool]string{true: "present", false: "absent"}[has]), detail)
+					case t.RowidAlias != nil && errp == nil && (calls == 1) != has:
+						run.Violation("C04/no-columns/presence-pkselect", fmt.Sprintf("PKSelect(%s, Key{%d}) without column names calls back %d times; the rowid is %s", t.Name, id, calls, map[bool]string{true: "present", false: "absent"}[has]), detail)
+					default:
+						run.See("no_column_lookups", map[bool]string{true: "present", false: "absent"}[has])
+					}
+				}
 				if keptRow != nil && !hx.RowEqualStrict(hx.Row(keptRow), keptRowCopy) {
 					run.Violation("C04/SelectRowid/earlier-result-changed", fmt.Sprintf("the row SelectRowid(%s, %d) returned changed when SelectRowid(%d) ran: was %s, now %s", t.Name, keptID, id, hx.RowString(keptRowCopy), hx.RowString(hx.Row(keptRow))), detail)
 					keptRow = nil
